@@ -802,7 +802,7 @@ fn gen_packed(line: &str, rs: &mut String, facts: &mut String) {
     write!(facts, "{}: {{", json_str(&format!("packed:{}", spec.name))).unwrap();
     write!(facts, "\"pats\": [{}], ", spec.pats.iter().map(|p| json_str(&hex(p))).collect::<Vec<_>>().join(",")).unwrap();
     write!(facts, "\"kind\": {}, \"force\": {}, \"imp\": {}, \"minimum_len\": {}, \"teddy_bytes\": {}, \"order\": {:?}, ", spec.kind, json_str(&spec.force), json_str(&raw.imp), raw.minimum_len, teddy_bytes, raw.order).unwrap();
-    write!(facts, "\"rk_hash_len\": {}, \"max_bucket\": {}, \"max_teddy_bucket\": {}, ", raw.rk_hash_len, raw.rk_buckets.iter().map(|b| b.len()).max().unwrap_or(0), raw.teddy_buckets.iter().map(|b| b.len()).max().unwrap_or(0)).unwrap();
+    write!(facts, "\"rk_hash_len\": {}, \"max_bucket\": {}, \"max_teddy_bucket\": {}, \"teddy_nonempty_buckets\": {}, ", raw.rk_hash_len, raw.rk_buckets.iter().map(|b| b.len()).max().unwrap_or(0), raw.teddy_buckets.iter().map(|b| b.len()).max().unwrap_or(0), raw.teddy_buckets.iter().filter(|b| !b.is_empty()).count()).unwrap();
     write!(facts, "\"problems\": [{}]", problems.iter().map(|s| json_str(s)).collect::<Vec<_>>().join(",")).unwrap();
     facts.push('}');
 }
